@@ -149,6 +149,7 @@ def c12_reload(e1: int, e2: int, e3: int) -> bool:
             arb = w.arbiter
             history = []
             ok = True
+            after_failure = False
             from vtlib.harness.c15 import coherent
             for e in edits:
                 old_model = model
@@ -161,10 +162,14 @@ def c12_reload(e1: int, e2: int, e3: int) -> bool:
                 w.quiesce()
                 w.run_for(0.5)
                 if 'singleton' in model.get('b', {}):
-                    # the file is invalid: the reload may fail, but the directory has to stay coherent (C15) -- nothing else is claimed
+                    # the file is invalid: the reload may fail (having applied part of it), but the directory has to stay coherent (C15);
+                    # from here on only convergence is claimed: the next valid file must be reached all the same
                     if S.get('directory'):
                         ok = coherent(w) and ok
-                    break
+                    after_failure = True
+                    if not ok:
+                        break
+                    continue
                 if not r.replies or r.status != 'ok':
                     rt.note('reloadconfig after %r: %r', e, r.reply)
                     ok = False
@@ -189,7 +194,7 @@ def c12_reload(e1: int, e2: int, e3: int) -> bool:
                         rt.note('watcher %s: %d live, numprocesses %d', name, len(k.alive_pids(x.name)), x.numprocesses)
                         ok = False
                 # 2. unchanged watchers keep their pids; numprocesses-only edits add / remove exactly the difference
-                for name in model:
+                for name in (model if not after_failure else ()):
                     if name in old_model and old_model[name] == model[name] and name in live:
                         if sorted(live[name].processes) != before_pids.get(name):
                             rt.note('unchanged watcher %s was disturbed by %r: pids %r -> %r', name, e, before_pids.get(name),
@@ -204,7 +209,7 @@ def c12_reload(e1: int, e2: int, e3: int) -> bool:
                                 rt.note('numprocesses-only change of %s (%+d) replaced workers: %r -> %r', name, d,
                                         before_pids.get(name), sorted(live[name].processes))
                                 ok = False
-                if old_model == model:
+                if old_model == model and not after_failure:
                     if (len(k.spawn_log), len(k.signal_log)) != (n_spawn, n_sig):
                         rt.note('reload of an unchanged file caused kernel activity: spawns %d->%d signals %d->%d', n_spawn,
                                 len(k.spawn_log), n_sig, len(k.signal_log))
@@ -218,6 +223,18 @@ def c12_reload(e1: int, e2: int, e3: int) -> bool:
                     ok = coherent(w) and ok
                 if not ok:
                     break
+            if ok and S.get('directory') and not after_failure:
+                # global requests address exactly the watchers of the directory: stop everything, start everything
+                w.call('stop', waiting=True, max_time=30.0)
+                w.quiesce()
+                w.call('start', waiting=True, max_time=30.0)
+                w.quiesce()
+                names = set(x.name.lower() for x in arb.watchers)
+                ghosts = sorted(set(p.tag for p in k.workers(None) if p.tag is not None and p.tag.lower() not in names))
+                if ghosts:
+                    rt.note('after %r a global stop + start runs workers of watchers that are not in the directory: %r', edits, ghosts)
+                    ok = False
+                ok = coherent(w) and ok
             return rt.verdict(ok)
     except (scen.Diverged, scen.BlockedLoop):
         return rt.skip()
